@@ -620,12 +620,14 @@ class Machine:
 
     # ---- expression evaluation -------------------------------------------------
     def lookup(self, name):
-        if name in self.locals:
-            return self.locals[name]
         if self.spec_mode:
+            # bound variables, `result` and `k` shadow the code's locals
             for sc in reversed(self.quant_scope):
                 if name in sc:
                     return sc[name]
+        if name in self.locals:
+            return self.locals[name]
+        if self.spec_mode:
             if name in self.ghost:
                 return self.ghost[name]
             if name in self.hidden:
@@ -636,6 +638,8 @@ class Machine:
                 return self.c.spec_env[name]
         if name in self.globs:
             return self.globs[name]
+        if name in ("operator", "random"):
+            return std_modules()[name]
         if name in BUILTINS:
             return Builtin(name)
         if name in EXC_NAMES:
@@ -879,6 +883,14 @@ class Machine:
                 return r
             raise Unsupported("'in' on %r" % (b,))
         conc = (int, float, fractions.Fraction, str)
+        for x_ in (a, b):
+            if isinstance(x_, float) and (x_ != x_ or x_ in (float("inf"), float("-inf"))):
+                other = b if x_ is a else a
+                if isinstance(other, (int, float, fractions.Fraction)):
+                    import operator as _op
+                    f_ = {ast.Eq: _op.eq, ast.NotEq: _op.ne, ast.Lt: _op.lt, ast.LtE: _op.le, ast.Gt: _op.gt, ast.GtE: _op.ge}[type(op)]
+                    return f_(a, b)
+                raise Unsupported("comparison of a symbolic number with inf/nan")
         if (a is None or b is None):
             if isinstance(op, ast.Eq):
                 return a is None and b is None
@@ -1647,6 +1659,16 @@ class Machine:
                         note="exception %s escapes at line %d%s" % (exc, self.curline, " (StopIteration inside a generator, PEP 479)" if e.exc != exc else ""))
 
 
+class CallRes:
+    """the (lazy) result of calling another repository function that has its
+    own contract: identified by the callee and its bound arguments"""
+    def __init__(self, qual, args):
+        self.qual, self.args = qual, args
+
+    def __repr__(self):
+        return "<result of %s>" % self.qual
+
+
 class BoundMethod:
     def __init__(self, base, handler, attr):
         self.base, self.handler, self.attr = base, handler, attr
@@ -1660,6 +1682,13 @@ class Module:
         if attr in self.members:
             return self.members[attr]
         raise Unsupported("module member %s.%s" % (self.name, attr))
+
+
+def std_modules():
+    return {
+        "operator": Module("operator", {k: Builtin("operator." + k) for k in ("ge", "gt", "le", "lt", "add", "sub", "mul")}),
+        "random": Module("random", {"uniform": Builtin("random.uniform")}),
+    }
 
 
 _expr_cache = {}
@@ -1802,7 +1831,37 @@ def _sf_fdiv(m, node):
     return FDIV(a, b)
 
 
+def rint_spec(z):
+    """nearest integer, halfway cases away from zero (the documented result of lazy_misc.rint)"""
+    z = to_real(z)
+    half = z3.RealVal("1/2")
+    return z3.If(z >= 0, z3.ToInt(z + half), -z3.ToInt(-z + half))
+
+
+def _sf_rint(m, node):
+    return rint_spec(m.eval(node.args[0]))
+
+
+def _sf_trunc(m, node):
+    v = m.eval(node.args[0])
+    return _b_int(m, [v], {})
+
+
+def _sf_call_of(m, node):
+    v = m.eval(node.args[0])
+    return v.qual if isinstance(v, CallRes) else "<not a call result>"
+
+
+def _sf_call_arg(m, node):
+    v = m.eval(node.args[0])
+    name = m.eval(node.args[1])
+    if isinstance(v, CallRes):
+        return v.args[name]
+    raise Unsupported("call_arg() of %r" % (v,))
+
+
 SPEC_FUNCS = {
+    "RINT": _sf_rint, "TRUNC": _sf_trunc, "call_of": _sf_call_of, "call_arg": _sf_call_arg,
     "FDIV": _sf_fdiv, "is_stream": _sf_is_stream, "data_of": _sf_data_of, "gen_label": _sf_gen_label, "src_of": _sf_src_of,
     "same": _sf_same, "captured": _sf_captured, "is_closure": _sf_is_closure,
     "forall": _sf_quant("forall"), "exists": _sf_quant("exists"), "implies": _sf_implies, "ite": _sf_ite,
@@ -1967,7 +2026,59 @@ def _consumed_to_list(m, src):
 
 CONSUMERS = {"deque", "list", "tuple", "sum", "all", "any", "max", "min", "sorted", "set"}
 
+def _b_isinf(m, args, kw):
+    (v,) = args
+    if isinstance(v, float):
+        return v in (float("inf"), float("-inf"))
+    if is_num(v):
+        return False     # A2: a symbolic number is a real number
+    raise Unsupported("isinf(%r)" % (v,))
+
+
+def _b_divmod(m, args, kw):
+    a, b = args
+    if isinstance(a, (int, fractions.Fraction)) and isinstance(b, (int, fractions.Fraction)):
+        return divmod(a, b)
+    za, zb = coerce_pair(a, b)
+    if not m.spec_mode and m.branch(zb == 0):
+        raise PyRaise("ZeroDivisionError")
+    if za.sort() == INT:
+        q = py_floordiv_int(za, zb)
+        return (q, za - zb * q)
+    r = m.real_mod(za, zb)
+    # Python returns the quotient as a float: floor(a/b)
+    return (z3.ToReal(FDIV(za, zb)), r)
+
+
+def _b_op(name):
+    tbl = {"ge": ast.GtE, "gt": ast.Gt, "le": ast.LtE, "lt": ast.Lt, "eq": ast.Eq, "ne": ast.NotEq,
+           "add": ast.Add, "sub": ast.Sub, "mul": ast.Mult, "truediv": ast.Div, "mod": ast.Mod, "floordiv": ast.FloorDiv}
+
+    def f(m, args, kw):
+        a, b = args
+        node = tbl[name]()
+        if isinstance(node, ast.cmpop):
+            return m.compare(node, a, b)
+        return m.binop(node, a, b)
+    return f
+
+
+def _b_uniform(m, args, kw):
+    a, b = (to_real(x) for x in args)
+    r = m.fresh("uniform", REAL)
+    # documented: a + (b-a) * random(), random() in [0, 1)  ->  between the two limits
+    m.assume(z3.And(r >= z3.If(a <= b, a, b), r <= z3.If(a <= b, b, a)))
+    return r
+
+
+def _b_sum(m, args, kw):
+    raise Unsupported("sum()")
+
+
 BUILTINS = {
+    "isinf": _b_isinf, "divmod": _b_divmod, "random.uniform": _b_uniform,
+    "operator.ge": _b_op("ge"), "operator.gt": _b_op("gt"), "operator.le": _b_op("le"), "operator.lt": _b_op("lt"),
+    "operator.add": _b_op("add"), "operator.sub": _b_op("sub"), "operator.mul": _b_op("mul"),
     "next": _b_next, "iter": _b_iter, "xrange": _b_xrange, "range": _b_xrange, "len": _b_len, "int": _b_int,
     "float": _b_float, "round": _b_round, "abs": _b_abs, "max": _minmax(True), "min": _minmax(False),
     "deque": _b_deque, "isinstance": _b_isinstance, "list": _b_list,
